@@ -13,7 +13,7 @@ EXPLANATION = (
     "(integer linear reasoner over slice lengths, constants and parameters, with memory epochs) or be a reviewed "
     "table line.  R2: every CFG cycle in those bodies is driven by a finite std iterator or is a reviewed line.  "
     "Slice provenance is guaranteed by safe Rust; the reachable unsafe is the buffer/huffman set audited under "
-    "C19/C07.  Not decided: re-written packets read back equal (value level)."
+    "C19/C07.  R4 (accepted payload bounded): the over-long-payload guard of read_impl tests the payload after decompression against MAX_PACKETSIZE - HEADER_SIZE (shared with C05 R4).  R5: the flag tests decompress_impl asserts are implied by needs_decompression() == true, the predicate decompress_if_needed / read_impl test first.  R3 (thorough): compile-fail witnesses W7/W8 -- a parsed packet borrows the datagram and the scratch buffer.  Not decided: re-written packets read back equal (value level)."
 )
 ASSUMPTIONS = [
     "std / arrayvec / zerocopy functions not listed in the precondition table of sa/panics.py do not panic",
